@@ -49,14 +49,14 @@ private theorem frag_facts (cfg : Cfg) (hsec : cfg.secStep = id) (m : Nat) (b : 
       f.primary.lifetime = (prepared cfg b).primary.lifetime ∧ isFragment f.primary.flags = true := by
   obtain ⟨pb, pdata, _, _, _, _, _, _, hloop⟩ := create_frags hfs
   have hmem : f ∈ (createLoop m (headLen pdata.length) pdata (prepared cfg b).primary
-      (setBtsd none (prepared cfg b).blocks) pdata.length 0).1 := by rw [hloop]; exact hf
+      (prepared cfg b).blocks pdata.length 0).1 := by rw [hloop]; exact hf
   obtain ⟨o, _, _, hbud, rfl⟩ := mem_createLoop _ _ _ hmem
-  have hn1 : n1 (setBtsd none (prepared cfg b).blocks) ≤ 1 := by
-    rw [n1_setBtsd, prep_blocks cfg hsec, n1_map _ fillBlk_num]
+  have hn1 : n1 (prepared cfg b).blocks ≤ 1 := by
+    rw [prep_blocks cfg hsec, n1_map _ fillBlk_num]
     exact n1_of_numsOk hnums
   have hfl := prep_filled cfg hsec b hwf
   refine ⟨fragAt_size_le m pdata _ _ o hn1 hbud, ?_, rfl, rfl, ?_⟩
-  · exact filled_fragAt _ _ _ _ _ _ hfl.1 (filled_setBtsd none hfl).2
+  · exact filled_fragAt _ _ _ _ _ _ hfl.1 hfl.2
   · rw [fragAt_primary]; exact isFragment_setFragFlag _
 
 /-- **C05_size.** Security policy off, CRC values of the width of their type, clock after the DTN
@@ -128,16 +128,13 @@ theorem C05_tiling (m : Nat) (b2 : FBundle) (fs : List FBundle) (hfs : create (s
     ∃ P, b2.payload = some P ∧ (fs.map pdataOf).flatten = P ∧ offsetsContiguous 0 fs ∧
       ∀ f ∈ fs, f.payload.isSome ∧ pdataOf f ≠ [] ∧ f.primary.totalLen = P.length := by
   obtain ⟨pb, pdata, hpb, hpd, _, _, _, _, hloop⟩ := create_frags hfs
-  have hex : ∃ x ∈ setBtsd none b2.blocks, x.c.blockNum = 1 := by
-    have hm := List.mem_of_find?_eq_some hpb
-    have h1 : pb.c.blockNum = 1 := by simpa using List.find?_some hpb
-    refine ⟨_, List.mem_map.2 ⟨pb, hm, rfl⟩, ?_⟩
-    split <;> simpa using h1
+  have hex : ∃ x ∈ b2.blocks, x.c.blockNum = 1 :=
+    ⟨pb, List.mem_of_find?_eq_some hpb, by simpa using List.find?_some hpb⟩
   obtain ⟨t1, t2, t3⟩ := createLoop_tiling m _ pdata b2.primary _ hex pdata.length 0 fs (by omega) hloop
   refine ⟨pdata, by simp [FBundle.payload, hpb, hpd], by simpa using t1, t2, ?_⟩
   intro f hf
   refine ⟨(t3 f hf).1, (t3 f hf).2, ?_⟩
-  have hmem : f ∈ (createLoop m (headLen pdata.length) pdata b2.primary (setBtsd none b2.blocks) pdata.length 0).1 := by
+  have hmem : f ∈ (createLoop m (headLen pdata.length) pdata b2.primary b2.blocks pdata.length 0).1 := by
     rw [hloop]; exact hf
   obtain ⟨o, _, _, _, rfl⟩ := mem_createLoop _ _ _ hmem
   rfl
@@ -155,29 +152,30 @@ theorem C05_fields (m : Nat) (b2 : FBundle) (fs : List FBundle) (hfs : create (s
       (∃ P, b2.payload = some P ∧ f.primary.totalLen = P.length) := by
   intro f hf
   obtain ⟨pb, pdata, hpb, hpd, _, _, _, _, hloop⟩ := create_frags hfs
-  have hmem : f ∈ (createLoop m (headLen pdata.length) pdata b2.primary (setBtsd none b2.blocks) pdata.length 0).1 := by
+  have hmem : f ∈ (createLoop m (headLen pdata.length) pdata b2.primary b2.blocks pdata.length 0).1 := by
     rw [hloop]; exact hf
   obtain ⟨o, _, _, _, rfl⟩ := mem_createLoop _ _ _ hmem
   refine ⟨rfl, rfl, rfl, rfl, rfl, rfl, rfl, rfl, isFragment_setFragFlag _, pdata, by simp [FBundle.payload, hpb, hpd], rfl⟩
 
 /-- **C05_blocks.** The block list of a fragment is exactly the selection of the container's blocks
-    for its offset, with the payload data replaced by the fragment's part: all blocks when the
+    for its offset, with the payload data replaced by the fragment's part (`setPayload`: the payload
+    block's scapy layer, if any, is dropped): all blocks when the
     offset is 0 (`C05_blocks_first`), otherwise those flagged replicate-in-fragment and the payload
     block (`C05_blocks_later`). -/
 theorem C05_blocks (cfg : Cfg) (hsec : cfg.secStep = id) (m : Nat) (b : FBundle) (fs : List FBundle)
     (hfs : create (some m) (prepared cfg b) = .frags fs) :
-    ∀ f ∈ fs, f.blocks = setBtsd f.payload (selectBlocks f.primary.fragOff (prepared cfg b).blocks) := by
+    ∀ f ∈ fs, f.blocks = setPayload (pdataOf f) (selectBlocks f.primary.fragOff (prepared cfg b).blocks) := by
   intro f hf
   obtain ⟨pb, pdata, hpb, hpd, _, _, _, _, hloop⟩ := create_frags hfs
   have hmem : f ∈ (createLoop m (headLen pdata.length) pdata (prepared cfg b).primary
-      (setBtsd none (prepared cfg b).blocks) pdata.length 0).1 := by rw [hloop]; exact hf
+      (prepared cfg b).blocks pdata.length 0).1 := by rw [hloop]; exact hf
   obtain ⟨o, _, _, _, rfl⟩ := mem_createLoop _ _ _ hmem
-  have hex : ∃ x ∈ setBtsd none (prepared cfg b).blocks, x.c.blockNum = 1 := by
-    have hm := List.mem_of_find?_eq_some hpb
-    have h1 : pb.c.blockNum = 1 := by simpa using List.find?_some hpb
-    refine ⟨_, List.mem_map.2 ⟨pb, hm, rfl⟩, ?_⟩
-    split <;> simpa using h1
-  rw [fragAt_payload _ _ _ _ _ _ hex]
+  have hex : ∃ x ∈ (prepared cfg b).blocks, x.c.blockNum = 1 :=
+    ⟨pb, List.mem_of_find?_eq_some hpb, by simpa using List.find?_some hpb⟩
+  have hpd : pdataOf (fragAt m (headLen pdata.length) pdata (prepared cfg b).primary (prepared cfg b).blocks o)
+      = (pdata.drop o).take (budget m (headLen pdata.length) pdata (prepared cfg b).primary (prepared cfg b).blocks o) := by
+    simp [pdataOf, fragAt_payload _ _ _ _ _ _ hex]
+  rw [hpd]
   apply fragAt_blocks
   intro x hx
   rw [prep_blocks cfg hsec] at hx
@@ -228,48 +226,89 @@ example : (prepared cfgW exB).size = 130 ∧ clOutputs cfgW (some 130) exB = clO
     ∧ (clOutputs cfgW (some 129) exB).map List.length = [129, 60] := by
   refine ⟨by decide +kernel, by decide +kernel, by decide +kernel⟩
 
-/-- Exactly what reaches the CL when `_create` raises: the container as the exception left it
-    (payload data field deleted), then whatever fragments had already been scheduled. -/
+/-- Exactly what reaches the CL when `_create` raises: nothing from this call when route and sender
+    were cleared (the impossibility branches), the untouched input otherwise (KeyError/TypeError: no
+    block number 1 / no payload data) — then whatever fragments had already been scheduled. -/
 theorem C05_impossible_transmits (cfg : Cfg) (m : Nat) (b : FBundle) (hn : numsOk b = true)
-    (hc : crcTypesOk b = true) (fs : List FBundle) (c : FBundle)
-    (hr : create (some m) (prepared cfg b) = .raised fs c) :
-    clOutputs cfg (some m) b = finalize cfg c :: fs.flatMap (resend cfg (some m)) := by
+    (hc : crcTypesOk b = true) (fs : List FBundle) (cleared : Bool)
+    (hr : create (some m) (prepared cfg b) = .raised fs cleared) :
+    clOutputs cfg (some m) b =
+      (if cleared then [] else [finalize cfg (prepared cfg b)]) ++ fs.flatMap (resend cfg (some m)) := by
   simp only [clOutputs, sendBundle_ok _ _ _ _ hn hc]
   simp only [prepared] at hr
-  rw [hr]; rfl
+  rw [hr]
+  cases cleared <;> rfl
 
-/-- **Full statement (does not hold — defect D12).** When fragmentation is impossible nothing is
-    transmitted. -/
-def C05_impossible_sends_nothing_statement : Prop :=
-  ∀ (cfg : Cfg) (m : Nat) (b : FBundle) (fs : List FBundle) (c : FBundle), cfg.secStep = id →
-    create (some m) (prepared cfg b) = .raised fs c → clOutputs cfg (some m) b = []
+/-- when `_create` raises on a container that has payload data, it is one of the two impossibility
+    branches: sender cleared, and nothing had been scheduled -/
+private theorem raised_shape (cfg : Cfg) (hsec : cfg.secStep = id) (m : Nat) (b : FBundle) (hwf : CrcWf b)
+    (hn : numsOk b = true) (P : Bytes) (hpay : (prepared cfg b).payload = some P)
+    (fs : List FBundle) (cleared : Bool) (hr : create (some m) (prepared cfg b) = .raised fs cleared) :
+    fs = [] ∧ cleared = true := by
+  have hfl := prep_filled cfg hsec b hwf
+  have hn1 : n1 (prepared cfg b).blocks ≤ 1 := by
+    rw [prep_blocks cfg hsec, n1_map _ fillBlk_num]; exact n1_of_numsOk hn
+  unfold create at hr
+  simp only [] at hr
+  split at hr
+  · cases hr
+  · rename_i hc
+    simp only [Bool.or_eq_true, Bool.not_eq_true', decide_eq_false_iff_not, not_or] at hc
+    have hfr : isFragment (prepared cfg b).primary.flags = false := by simpa using hc.2
+    split at hr
+    · rename_i hnone
+      simp [FBundle.payload, hnone] at hpay
+    · rename_i pb hpb
+      split at hr
+      · rename_i hd
+        simp [FBundle.payload, hpb, hd] at hpay
+      · rename_i pdata hd
+        split at hr
+        · injection hr with h1 h2
+          exact ⟨h1.symm, h2.symm⟩
+        · rename_i hpre
+          exfalso
+          have hbud : ∀ o, o < pdata.length →
+              (emptyFrag (prepared cfg b).primary (prepared cfg b).blocks o pdata.length).size - 1
+                + headLen pdata.length < m := by
+            intro o ho
+            have := emptyFrag_size_le (prepared cfg b) pb pdata o hfl hfr hn1 hpb hd ho
+            have := headLen_pos pdata.length
+            omega
+          have hnr := createLoop_no_raise m (headLen pdata.length) pdata (prepared cfg b).primary
+            (prepared cfg b).blocks hbud pdata.length 0
+          rw [hnr] at hr
+          simp at hr
 
-/-- D12 on a concrete witness (64-octet payload, MTU 40): the pre-check raises, the chain runner
-    swallows it and the original container — payload data deleted, CBOR null — goes to the CL. -/
-theorem C05_impossible_sends_nothing_counterexample : ¬ C05_impossible_sends_nothing_statement := by
-  intro h
-  have h1 : create (some 40) (prepared cfgW witness)
-      = .raised [] { (prepared cfgW witness) with blocks := setBtsd none (prepared cfgW witness).blocks } := by
-    decide +kernel
-  have := h cfgW 40 witness _ _ rfl h1
-  revert this
-  decide +kernel
+/-- **C05_impossible_sends_nothing (full strength since fix 9a18e3b).** For a bundle that has payload
+    data: whenever `_create` raises — fragmentation is impossible — nothing at all is handed to the CL
+    (and the container is not modified: `CreateRes.raised` carries no container, `_create` has no
+    write access to it in the model, mirroring the removed `delfieldval`). -/
+theorem C05_impossible_sends_nothing (cfg : Cfg) (hsec : cfg.secStep = id) (m : Nat) (b : FBundle)
+    (hwf : CrcWf b) (P : Bytes) (hpay : (prepared cfg b).payload = some P)
+    (fs : List FBundle) (cleared : Bool) (hr : create (some m) (prepared cfg b) = .raised fs cleared) :
+    clOutputs cfg (some m) b = [] := by
+  by_cases hok : numsOk b = true ∧ crcTypesOk b = true
+  · obtain ⟨h1, h2⟩ := raised_shape cfg hsec m b hwf hok.1 P hpay fs cleared hr
+    subst h1; subst h2
+    rw [C05_impossible_transmits cfg m b hok.1 hok.2 [] true hr]
+    rfl
+  · simp [clOutputs, sendBundle_bad _ _ _ _ hok]
 
-/-- what the witness transmits: 35 octets with a `null` payload field instead of the 100-octet bundle -/
-theorem C05_impossible_witness_output :
-    (clOutputs cfgW (some 40) witness).map List.length = [35] ∧
-    (clOutputs cfgW none witness).map List.length = [100] := by
-  constructor <;> decide +kernel
+/-- the former D12 witness (64-octet payload, MTU 40) and the former decoded-container witness
+    (MTU 80): now nothing / proper fragments -/
+example : clOutputs cfgW (some 40) witness = [] ∧ create (some 40) (prepared cfgW witness) = .raised [] true
+    ∧ (clOutputs cfgW (some 80) witnessWire).map List.length = [80, 62]
+    ∧ (clOutputs cfgW none witness).map List.length = [100] := by
+  refine ⟨by decide +kernel, by decide +kernel, by decide +kernel, by decide +kernel⟩
 
-/-- **Provable part.** Outside the region where `_create` raises (an explicit, decidable hypothesis)
-    nothing altered or oversized is transmitted: every byte string handed to the CL is within the MTU
-    or is the encoding of the input itself in one of the `C05_unchanged` cases.
-    Missing with respect to the full statement: the raising region itself, where the code transmits
-    the altered original (`C05_impossible_transmits`, counterexample above). -/
-theorem C05_impossible_sends_nothing_partial (cfg : Cfg) (hsec : cfg.secStep = id)
+/-- **C05_sound (nothing altered or oversized, full strength).** Security off, bundle with payload
+    data: every byte string handed to the CL is within the MTU, or it is the encoding of the input
+    itself in one of the `C05_unchanged` cases. -/
+theorem C05_sound (cfg : Cfg) (hsec : cfg.secStep = id)
     (hcrc : ∀ t d, (cfg.crcFn t d).length = crcWidth t) (m : Nat) (b : FBundle) (hwf : CrcWf b)
     (hnow : b.primary.ts.time ≠ 0 ∨ cfg.now.time ≠ 0)
-    (hex : ∀ fs c, create (some m) (prepared cfg b) ≠ .raised fs c) :
+    (P : Bytes) (hpay : (prepared cfg b).payload = some P) :
     ∀ out ∈ clOutputs cfg (some m) b, out.length ≤ m ∨
       (out = finalize cfg (prepared cfg b) ∧ create (some m) (prepared cfg b) = .skip) := by
   intro out hout
@@ -284,17 +323,9 @@ theorem C05_impossible_sends_nothing_partial (cfg : Cfg) (hsec : cfg.secStep = i
       exact ⟨hout, rfl⟩
     · simp [clOutputs, sendBundle_bad _ _ _ _ hok] at hout
   | frags fs => exact Or.inl (C05_size cfg hsec hcrc m b hwf hnow fs hcr out hout)
-  | raised fs c => exact absurd hcr (hex fs c)
-
-/-- **Second way to the same failure (new).** A container built by decoding (every block has a scapy
-    `Raw` layer — what a forwarded bundle is) is never fragmented: `ensure_block_type_specific_data`
-    refills the deleted payload, the "empty" fragment contains the whole payload, the budget is
-    negative, `_create` raises, and the whole bundle (100 octets) is sent on a route with MTU 80 —
-    although the same bundle built locally is fragmented fine. -/
-theorem C05_size_layered_counterexample :
-    (clOutputs cfgW (some 80) witnessWire).map List.length = [100] ∧
-    (clOutputs cfgW (some 80) witness).map List.length = [80, 62] := by
-  constructor <;> decide +kernel
+  | raised fs c =>
+    rw [C05_impossible_sends_nothing cfg hsec m b hwf P hpay fs c hcr] at hout
+    simp at hout
 
 /-- **C05_outputs (nothing is lost on the way to the CL).** When `_create` fragments and the route
     table resolves the fragments, the CL receives exactly one byte string per fragment, in order: the
@@ -315,25 +346,22 @@ theorem C05_outputs (cfg : Cfg) (hsec : cfg.secStep = id) (hre : cfg.reroute = t
   have hall : ∀ f ∈ fs, resend cfg (some m) f = [finalize cfg (fillFields f)] := by
     intro f hf
     have hmem : f ∈ (createLoop m (headLen pdata.length) pdata (prepared cfg b).primary
-        (setBtsd none (prepared cfg b).blocks) pdata.length 0).1 := by rw [hloop]; exact hf
+        (prepared cfg b).blocks pdata.length 0).1 := by rw [hloop]; exact hf
     obtain ⟨o, _, _, _, rfl⟩ := mem_createLoop _ _ _ hmem
-    have hnod : (0 :: (setBtsd none (prepared cfg b).blocks).map (fun x => x.c.blockNum)).Nodup := by
-      rw [nums_setBtsd, prep_blocks cfg hsec, List.map_map]
+    have hnod : (0 :: (prepared cfg b).blocks.map (fun x => x.c.blockNum)).Nodup := by
+      rw [prep_blocks cfg hsec, List.map_map]
       have : ((fun x : Blk => x.c.blockNum) ∘ fillBlk) = (fun x : Blk => x.c.blockNum) := by
         funext x; simp
       rw [this]
       simpa [numsOk] using hn
     have hct : (prepared cfg b).primary.crcType ≤ 2 ∧
-        ∀ x ∈ setBtsd none (prepared cfg b).blocks, x.c.crcType ≤ 2 := by
+        ∀ x ∈ (prepared cfg b).blocks, x.c.crcType ≤ 2 := by
       simp only [crcTypesOk, Bool.and_eq_true, decide_eq_true_eq, List.all_eq_true] at hc
       refine ⟨by rw [prep_primary cfg hsec]; exact hc.1, ?_⟩
       intro x hx
-      simp only [setBtsd, List.mem_map] at hx
-      obtain ⟨y, hy, rfl⟩ := hx
-      rw [prep_blocks cfg hsec] at hy
-      obtain ⟨z, hz, rfl⟩ := List.mem_map.1 hy
-      have := hc.2 z hz
-      split <;> simpa using this
+      rw [prep_blocks cfg hsec] at hx
+      obtain ⟨z, hz, rfl⟩ := List.mem_map.1 hx
+      simpa using hc.2 z hz
     exact resend_eq cfg hsec hre (some m) _ (numsOk_fragAt _ _ _ _ _ _ hnod)
       (crcTypesOk_fragAt _ _ _ _ _ _ hct.1 hct.2) ht.1 ht.2 (by rw [fragAt_primary]; exact isFragment_setFragFlag _)
   clear hloop hfs hfs'
@@ -344,36 +372,61 @@ theorem C05_outputs (cfg : Cfg) (hsec : cfg.secStep = id) (hre : cfg.reroute = t
     rw [hall f List.mem_cons_self, ih (fun g hg => hall g (List.mem_cons_of_mem _ hg))]
     rfl
 
-/-- **C05_feasible (when does `_create` raise?).** If the container has a payload block without a scapy
-    layer (a locally built bundle) and the code's own pre-check `orig − payload + 3·head ≤ MTU`
-    passes, the loop never raises: the bundle is fragmented. So `_create` raises exactly when there is
-    no payload block/data, the pre-check fails, or the payload block carries a layer. -/
+/-- **C05_feasible (when does `_create` raise?).** If the container has payload data — with or without
+    a scapy layer on the payload block, i.e. locally built or decoded from the wire — and the code's
+    own pre-check `orig − payload + 3·head ≤ MTU` passes, the loop never raises: the bundle is
+    fragmented. So `_create` raises exactly when there is no payload block/data or the pre-check fails. -/
 theorem C05_feasible (cfg : Cfg) (hsec : cfg.secStep = id) (m : Nat) (b : FBundle) (hwf : CrcWf b)
-    (hn : numsOk b = true) (pb : Blk) (pdata : Bytes)
-    (hpb : payloadBlk (prepared cfg b).blocks = some pb) (hd : pb.c.btsd = some pdata) (hl : pb.layer = none)
+    (hn : numsOk b = true) (P : Bytes) (hpay : (prepared cfg b).payload = some P)
     (hbig : m < (prepared cfg b).size) (hnf : noFragment (prepared cfg b).primary.flags = false)
     (hfr : isFragment (prepared cfg b).primary.flags = false)
-    (hpre : (prepared cfg b).size - pdata.length + 3 * headLen pdata.length ≤ m) :
+    (hpre : (prepared cfg b).size - P.length + 3 * headLen P.length ≤ m) :
     ∃ fs, create (some m) (prepared cfg b) = .frags fs := by
-  have hfl := prep_filled cfg hsec b hwf
-  have hn1 : n1 (prepared cfg b).blocks ≤ 1 := by
-    rw [prep_blocks cfg hsec, n1_map _ fillBlk_num]; exact n1_of_numsOk hn
-  have hbud : ∀ o, o < pdata.length →
-      (emptyFrag (prepared cfg b).primary (setBtsd none (prepared cfg b).blocks) o pdata.length).size - 1
-        + headLen pdata.length < m := by
-    intro o ho
-    have := emptyFrag_size_le (prepared cfg b) pb pdata o hfl hfr hn1 hpb hd hl ho
-    have := headLen_pos pdata.length
-    omega
-  have hnr := createLoop_no_raise m (headLen pdata.length) pdata (prepared cfg b).primary
-    (setBtsd none (prepared cfg b).blocks) hbud pdata.length 0
-  refine ⟨(createLoop m (headLen pdata.length) pdata (prepared cfg b).primary
-    (setBtsd none (prepared cfg b).blocks) pdata.length 0).1, ?_⟩
-  unfold create
   have hcond : (!(decide (m < (prepared cfg b).size)) || noFragment (prepared cfg b).primary.flags
       || isFragment (prepared cfg b).primary.flags) = false := by simp [hbig, hnf, hfr]
-  have hpre' : ¬ m < (prepared cfg b).size - pdata.length + 3 * headLen pdata.length := by omega
-  simp only [hcond, Bool.false_eq_true, if_false, hpb, hd, hpre', hnr]
+  cases hcr : create (some m) (prepared cfg b) with
+  | frags fs => exact ⟨fs, rfl⟩
+  | skip =>
+    exfalso
+    unfold create at hcr
+    simp only [hcond, Bool.false_eq_true, if_false] at hcr
+    split at hcr
+    · cases hcr
+    · split at hcr
+      · cases hcr
+      · split at hcr
+        · cases hcr
+        · split at hcr <;> cases hcr
+  | raised fs c =>
+    exfalso
+    obtain ⟨hfs, hc⟩ := raised_shape cfg hsec m b hwf hn P hpay fs c hcr
+    -- the only raise with an empty schedule and a payload is the pre-check; it passes
+    have hfl := prep_filled cfg hsec b hwf
+    have hn1 : n1 (prepared cfg b).blocks ≤ 1 := by
+      rw [prep_blocks cfg hsec, n1_map _ fillBlk_num]; exact n1_of_numsOk hn
+    unfold create at hcr
+    simp only [hcond, Bool.false_eq_true, if_false] at hcr
+    split at hcr
+    · rename_i hnone; simp [FBundle.payload, hnone] at hpay
+    · rename_i pb hpb
+      split at hcr
+      · rename_i hd; simp [FBundle.payload, hpb, hd] at hpay
+      · rename_i pdata hd
+        have hP : pdata = P := by simpa [FBundle.payload, hpb, hd] using hpay
+        subst hP
+        have hpre' : ¬ m < (prepared cfg b).size - pdata.length + 3 * headLen pdata.length := by omega
+        simp only [hpre', if_false] at hcr
+        have hbud : ∀ o, o < pdata.length →
+            (emptyFrag (prepared cfg b).primary (prepared cfg b).blocks o pdata.length).size - 1
+              + headLen pdata.length < m := by
+          intro o ho
+          have := emptyFrag_size_le (prepared cfg b) pb pdata o hfl hfr hn1 hpb hd ho
+          have := headLen_pos pdata.length
+          omega
+        have hnr := createLoop_no_raise m (headLen pdata.length) pdata (prepared cfg b).primary
+          (prepared cfg b).blocks hbud pdata.length 0
+        rw [hnr] at hcr
+        simp at hcr
 
 example : ((payloadBlk (prepared cfgW exB).blocks).map (fun x => (x.c.btsd, x.layer))) = some (some (bytesUpTo 64), none)
     ∧ (prepared cfgW exB).size - 64 + 3 * headLen 64 ≤ 90 := by
@@ -391,14 +444,40 @@ def ex300 : FBundle :=
   { primary := { crcType := 2, dest := .dtn "//d/".toUTF8.toList, src := .dtn "//s/".toUTF8.toList, ts := ⟨1, 0⟩, lifetime := 1000 },
     blocks := [{ c := { typeCode := 1, blockNum := 1, crcType := 2, btsd := some (zeros 300) } }] }
 
-/-- **D21 in the model (security policy on).** `C05_size` is stated for the identity security step.
-    With a step that adds a block, every fragment re-enters it through `send_bundle` (order 10 < 20)
-    and leaves larger than the MTU the budget was computed for: route MTU 230, fragments of 309, 309
-    and 154 octets handed to the CL. (On the real code with an HMAC-256 BIB: 309, 309, 187.) -/
-theorem C05_size_security_counterexample :
+/-- **Full statement with the security policy on (does not hold — known finding D21).** `C05_size`
+    without the hypothesis that the security steps are the identity. -/
+def C05_size_security_statement : Prop :=
+  ∀ (cfg : Cfg) (m : Nat) (b : FBundle) (fs : List FBundle),
+    (∀ t d, (cfg.crcFn t d).length = crcWidth t) → CrcWf b → (b.primary.ts.time ≠ 0 ∨ cfg.now.time ≠ 0) →
+    create (some m) (prepared cfg b) = .frags fs → ∀ out ∈ clOutputs cfg (some m) b, out.length ≤ m
+
+/-- D21 in the model: with a step that adds a block, every fragment re-enters it through
+    `send_bundle` (order 10 < 20) and leaves larger than the MTU the budget was computed for: route
+    MTU 230, fragments of 309, 309 and 154 octets handed to the CL. (On the real code with an
+    HMAC-256 BIB: 309, 309, 187.) -/
+theorem C05_size_security_witness :
     isFrags (create (some 230) (prepared cfgSec ex300)) = true ∧
     (clOutputs cfgSec (some 230) ex300).map List.length = [309, 309, 154] := by
   constructor <;> decide +kernel
+
+theorem C05_size_security_counterexample : ¬ C05_size_security_statement := by
+  intro h
+  obtain ⟨fs, hfs⟩ := frags_of_isFrags C05_size_security_witness.1
+  have hwf : CrcWf ex300 := by
+    refine ⟨Or.inr ⟨_, rfl, rfl⟩, ?_⟩
+    intro x hx
+    simp [fillFields, ex300] at hx
+    subst hx
+    exact Or.inr ⟨_, rfl, rfl⟩
+  have hall := h cfgSec 230 ex300 fs (fun t d => zeros_length _) hwf (Or.inl (by decide)) hfs
+  have hl : (clOutputs cfgSec (some 230) ex300).map List.length = [309, 309, 154] := C05_size_security_witness.2
+  have hmem : ∃ out ∈ clOutputs cfgSec (some 230) ex300, out.length = 309 := by
+    have : 309 ∈ (clOutputs cfgSec (some 230) ex300).map List.length := by rw [hl]; simp
+    obtain ⟨out, ho, hlen⟩ := List.mem_map.1 this
+    exact ⟨out, ho, hlen⟩
+  obtain ⟨out, ho, hlen⟩ := hmem
+  have := hall out ho
+  omega
 
 /-- flag bits, payload block number/type and chain orders the model relies on -/
 def stepOrder (chain name : String) : Option Int :=
